@@ -8,8 +8,8 @@ from props import rt
 PID = "C15"
 LEVEL = "proof"
 MODULE = "Sigc.Props.C15"
-EXTRA_MODULES = ("Sigc.Props.Refine", "Sigc.Props.SpecK", "Sigc.Props.SlotG",)   # refinement P ⊑ S', S' ≡ S on runs clear of the known findings
-REQUIRED = ["Sigc.SlotG.cpS_blocked", "Sigc.SlotG.mvS_blocked", "Sigc.SlotG.asgS_blocked", "Sigc.SlotG.masgS_blocked", "Sigc.SlotG.rep_held_unique", "Sigc.SlotG.live_count_spec", "Sigc.Refine.refines", "Sigc.Refine.runProgram_refines", "Sigc.SpecK.model_refines_pure_spec"]
+EXTRA_MODULES = ("Sigc.Props.Refine", "Sigc.Props.Fuel", "Sigc.Props.SpecK", "Sigc.Props.SlotG",)   # refinement P ⊑ S', S' ≡ S on runs clear of the known findings
+REQUIRED = ["Sigc.SlotG.cpS_blocked", "Sigc.SlotG.mvS_blocked", "Sigc.SlotG.asgS_blocked", "Sigc.SlotG.masgS_blocked", "Sigc.SlotG.rep_held_unique", "Sigc.SlotG.live_count_spec", "Sigc.Fuel.terminates", "Sigc.Fuel.runProgram_fuel_independent", "Sigc.Refine.refines", "Sigc.Refine.runProgram_refines", "Sigc.SpecK.model_refines_pure_spec"]
 TRUSTED = rt.TRUSTED_RT
 ASSUMPTIONS = rt.ASSUMPTIONS_RT + []
 PARTIAL = []
